@@ -120,15 +120,19 @@ theorem numsOf_setStop : ∀ {l : List Run} {i : Nat} {n : Str} {r : Run} {extra
 structure PInv (p : Str) (st : PState) (L : List Str) : Prop where
   starts : ∀ r ∈ st.runs, AllDig r.start ∧ p ++ r.start ∈ L ∧ splitNum (p ++ r.start) = (p, r.start)
   stops : ∀ r ∈ st.runs, ∀ e, r.stop = some e → r.start ≠ [] ∧ r.lo ≤ valOf e
+  ends : ∀ r ∈ st.runs, ∀ e, r.stop = some e →
+    AllDig e ∧ e ≠ [] ∧ p ++ e ∈ L ∧ splitNum (p ++ e) = (p, e)
   idx_ok : ∀ c w i, ((c, w), i) ∈ st.idx → ∃ r, st.runs[i]? = some r ∧ ∃ w' : Nat, w = (w' : Int) ∧
     r.lo ≤ w' ∧ w' ≤ r.hi ∧ (c = 1 → r.start.length ≤ (Nat.toDigits 10 w').length) ∧
     (c ≠ 1 → r.start.length = c)
 
 theorem PInv.mono {p st L L'} (h : PInv p st L) (hs : ∀ x ∈ L, x ∈ L') : PInv p st L' :=
-  ⟨fun r hr => ⟨(h.starts r hr).1, hs _ (h.starts r hr).2.1, (h.starts r hr).2.2⟩, h.stops, h.idx_ok⟩
+  ⟨fun r hr => ⟨(h.starts r hr).1, hs _ (h.starts r hr).2.1, (h.starts r hr).2.2⟩, h.stops,
+    fun r hr e he => ⟨(h.ends r hr e he).1, (h.ends r hr e he).2.1, hs _ (h.ends r hr e he).2.2.1,
+      (h.ends r hr e he).2.2.2⟩, h.idx_ok⟩
 
 theorem PInv.empty (p L) : PInv p PState.empty L :=
-  ⟨by simp [PState.empty], by simp [PState.empty], by simp [PState.empty]⟩
+  ⟨by simp [PState.empty], by simp [PState.empty], by simp [PState.empty], by simp [PState.empty]⟩
 
 theorem findIdx_lookup {lim : Option Nat} {st : PState} {n : Str} {i : Nat}
     (h : findIdx lim st n = some i) : lookupIdx st n = some i := by
@@ -205,7 +209,7 @@ theorem stepP_spec (lim : Option Nat) (p n : Str) (st : PState) (L : List Str) (
   cases hfi : findIdx lim st n with
   | none =>
     simp only
-    refine ⟨by simp [numsOf, List.flatMap_append, nums_none], ?_, ?_, ?_⟩
+    refine ⟨by simp [numsOf, List.flatMap_append, nums_none], ?_, ?_, ?_, ?_⟩
     · intro r hr
       simp only [List.mem_append, List.mem_singleton] at hr
       rcases hr with hr | rfl
@@ -215,6 +219,11 @@ theorem stepP_spec (lim : Option Nat) (p n : Str) (st : PState) (L : List Str) (
       simp only [List.mem_append, List.mem_singleton] at hr
       rcases hr with hr | rfl
       · exact inv.stops r hr e he
+      · simp at he
+    · intro r hr e he
+      simp only [List.mem_append, List.mem_singleton] at hr
+      rcases hr with hr | rfl
+      · exact inv'.ends r hr e he
       · simp at he
     · intro c w i hi
       simp only [List.mem_cons, Prod.mk.injEq] at hi
@@ -284,7 +293,7 @@ theorem stepP_spec (lim : Option Nat) (p n : Str) (st : PState) (L : List Str) (
       · omega
     have hext : Run.nums { r with stop := some n } = Run.nums r ++ [n] :=
       nums_extend hrs.1 hrne (fun e he => (inv.stops r hrmem e he).2) (by omega) hW.1
-    refine ⟨numsOf_setStop hr hext, ?_, ?_, ?_⟩
+    refine ⟨numsOf_setStop hr hext, ?_, ?_, ?_, ?_⟩
     · intro x hx
       rcases mem_setStop hx with hx | ⟨r', hr', rfl⟩
       · exact inv'.starts x hx
@@ -299,6 +308,12 @@ theorem stepP_spec (lim : Option Nat) (p n : Str) (st : PState) (L : List Str) (
         rw [← he']
         show valOf r.start ≤ valOf n
         simp only [Run.lo] at hlo; omega
+    · intro x hx e he
+      rcases mem_setStop hx with hx | ⟨r', hr', rfl⟩
+      · exact inv'.ends x hx e he
+      · have he' : n = e := by simpa using he
+        rw [← he']
+        exact ⟨hn, hnne, by simp, hsplit⟩
     · intro c2 w2 j hj
       simp only [List.mem_cons, Prod.mk.injEq] at hj
       rcases hj with ⟨⟨rfl, rfl⟩, rfl⟩ | hj
